@@ -111,7 +111,8 @@ class Setup:
         self.mapping, self.map_kind = None, "default"
         if nv == nd and nv > 1 and rng.random() < 0.6:
             perm = rng.permutation(nd)
-            self.mapping = {self.labels[j]: self.names[int(perm[j])] for j in range(nv)}
+            self.mapping = gen.shuffle_keys(
+                rng, {self.labels[j]: self.names[int(perm[j])] for j in range(nv)})
             self.map_kind = "permutation"
         self.real = real
         self.arr = gen.rand_values(rng, (*self.n, nv), "float" if real else "complex")
